@@ -32,6 +32,8 @@ def run_conc(exe, ex, extra_env=None, timeout=600):   # the driver has its own w
 
 
 def plan(tier, prop):
+    if prop == 'C20':
+        return [(3, 150, 'bak'), (4, 120, 'bak'), (6, 100, 'bak'), (4, 150, 'stall')] if tier == 'quick' else [(t, o, m) for _ in range(12) for (t, o, m) in [(3, 250, 'bak'), (4, 200, 'bak'), (6, 150, 'bak'), (8, 120, 'bak'), (4, 200, 'stall')]]
     if tier == 'quick' and prop in ('C04', 'C02'):
         return [(3, 150, 'mix'), (4, 150, 'mix'), (6, 100, 'mix'), (8, 80, 'mix')]
     if tier == 'quick':
